@@ -373,6 +373,9 @@ def stress_corpus():
         ("span_ends_other_line", b"cmd <A>;\n<A> = {{{ echo\n  multi\n line }}};\n<A> = {{{ dup\n }}};\n"),
         ("undef_in_multiline", b"cmd foo\n    <UNDEF1>\n    bar\n    <UNDEF2>;\n"),
         ("tab_columns", b"cmd\tfoo\t<UNDEF>;\n\t<UNUSED>\t=\tx;\n"),
+        ("span_end_column_before_start", b"cmd <fooooooooooooo\no>;"),
+        ("wrapped_specialization_rhs", b"cmd <A>;\n<A@bash> = foo\n bar;\n<A@fish> = foo\n bar;\n<A@zsh> = foo\n bar;\n<A@pwsh> = foo\n bar;\n"),
+        ("multiline_unused_def_name", b"cmd x;\n<UNUSED\nNAME> = y;\n"),
         ("wide_chars_before_error", "cmd 日本語 \"説明\" <UNDEFINED>;\n<UNUSED> = ü;\n".encode()),
     ]
     return items
